@@ -62,11 +62,11 @@ type C05Case struct {
 
 type c05Fleet struct {
 	lastAppTxn [8]int64 // per instance: id of its application's most recent write transaction
-	c      C05Case
-	b      *fault.Bucket
-	nodes  []*Node
-	now    time.Time
-	logPos int
+	c          C05Case
+	b          *fault.Bucket
+	nodes      []*Node
+	now        time.Time
+	logPos     int
 	// bucket replay
 	present map[string]bool
 	decoded map[string]map[string]map[string]Ver // blob -> dbi -> key -> version (nil if undecodable)
@@ -238,7 +238,7 @@ func (f *c05Fleet) close() {
 	for _, nd := range f.nodes {
 		nd.Stop()
 		nd.Forget()
-		nd.Env.Close()
+		nd.CloseEnv()
 	}
 }
 
